@@ -82,6 +82,13 @@ def check(ctx):
     if okg:
         arms = lib.bool_arms(tr, cont[0])
         okg = bool(arms) and all(tr.dominates(arms[0][2], p) for p in pushes)
+    if not okg and pushes:
+        # `if !set.insert(key) { return }`: HashSet::insert returns true exactly when the key was not present
+        for b, t, fr in tr.iter_calls():
+            if fr and lib.tail(mir.fn_name(fr), 2) in ("HashSet::insert", "BTreeSet::insert"):
+                arms = lib.bool_arms(tr, b)
+                if arms and all(tr.dominates(arms[0][1], p) for p in pushes):
+                    okg = True
     ctx.check(okg, "C08.a", "ReactCache::track_removals:one-checker-per-type", "%s:%d" % (tr.file, tr.line),
               "a checker is pushed only when the type is not yet tracked", "track_removals can push a second checker for a tracked type (each removal would be reported twice)")
 
@@ -132,7 +139,12 @@ def check(ctx):
                 if fr and lib.tail(mir.fn_name(fr), 2) in ("Vec::push", "Vec::extend", "Vec::insert"):
                     pushes.append((bd, b, t))
         okc = len(rd) == 1 and bool(clr) and all(coll.dominates(c, rd[0]) for c in clr[:1])
-        okp = bool(pushes) and all(bd is not coll and all(o[0] == "arg" and o[1] == 2 for o in origins(bd, t["args"][1])) for bd, b, t in pushes)
+        def _only_read_items(bd, t):
+            # a for_each closure pushing its parameter, or `buffer.extend(removed.read())` / its desugared loop in the collector
+            if bd is not coll:
+                return all(o[0] == "arg" and o[1] == 2 for o in origins(bd, t["args"][1]))
+            return bool(rd) and _derives_from_call(coll, t["args"][1], rd[0])
+        okp = bool(pushes) and all(_only_read_items(bd, t) for bd, b, t in pushes)
         ctx.check(okc and okp, "C08.b", "collect_component_removals:fresh-buffer-per-poll", "%s:%d" % (coll.file, coll.line),
                   "buffer.clear() dominates removed.read(); only the iterator's entities are pushed",
                   "the removal collector does not clear its reused buffer before reading (entities of an earlier poll would be reported again) or pushes something else")
@@ -379,6 +391,12 @@ def _one_checker_per_component(ctx, prog):
                     if body.dominates(absent_t, pb) and ins and (any(body.dominates(ib, pb) for ib in ins) or
                                                                lib.path_to_return_avoiding(body, [lib.call_target(body, pb)], ins) is None):
                         ok = True
+            if not ok:
+                for fld, ops in sets.items():
+                    for (ib, it) in ops["insert"]:
+                        arms = lib.bool_arms(body, ib)
+                        if arms and body.dominates(arms[0][1], pb):
+                            ok = True     # `if !set.insert(key) { return }`: the newly-inserted arm guards the push and records the key
             ctx.check(ok, "C08.a", "%s:one-checker-per-component" % fk, body.loc(pb),
                       "a removal checker is added only for a component not yet in the tracked set, and the component is recorded on that path",
                       "removal checkers can be added more than once for one component (not guarded by a membership test that is updated on the same path): "
